@@ -40,7 +40,8 @@ Inductive laop :=
 | LSetData (d : list (bytes * bytes))
 | LSetHeaderName (n : bytes)
 | LProcess (hdrs : hmap)
-| LDestroy.
+| LDestroy
+| LRename (app : bytes).      (* QCoreApplication::setApplicationName while the instance lives: the advertised path was fixed at construction *)
 
 Definition la_init (pre : option lfile) : lauth :=
   {| la_alive := false; la_hname := B "X-Auth-Token"; la_data := []; la_file := pre |}.
@@ -61,10 +62,11 @@ Definition la_step (s : lauth) (o : laop) : lauth * option bool :=
   | LProcess hdrs => if la_alive s then (s, Some (la_admits s hdrs)) else (s, None)
   | LDestroy =>
       if la_alive s then ({| la_alive := false; la_hname := la_hname s; la_data := la_data s; la_file := None |}, None) else (s, None)
+  | LRename _ => (s, None)
   end.
 
 (* ---- correspondence: family "lauth" -----------------------------------------------------------
-   case ::= ( ops )   op ::= (0 umask pre) | (1 ((k v)..)) | (2 name) | (3 ((hname hvalue)..)) | (4)
+   case ::= ( ops )   op ::= (0 umask pre) | (1 ((k v)..)) | (2 name) | (3 ((hname hvalue)..)) | (4) | (5 appname)
    obs  ::= per op ( exists mode ((k v)..) verdict )   verdict: -1 none, 0 refused (403), 1 admitted  *)
 Definition dec_laop (v : value) : option laop :=
   match v with
@@ -77,6 +79,7 @@ Definition dec_laop (v : value) : option laop :=
       | None => None
       end
   | VL [VI 4] => Some LDestroy
+  | VL [VI 5; VB app] => Some (LRename app)
   | _ => None
   end.
 
